@@ -240,7 +240,8 @@ def conclude(pid, tier, seed, b, names, res, t0, cfg):
     groups = {}
     for v in viol_recs:
         groups.setdefault((v['harness'], v['check'], v['kind'], v.get('kf')), []).append(v)
-    os.makedirs(os.path.join(VERIF, 'run'), exist_ok=True)
+    rundir = os.environ.get('VERIF_EVIDENCE_DIR') or os.path.join(VERIF, 'run')
+    os.makedirs(rundir, exist_ok=True)
     for (hname, cid, kind, kf), vs in sorted(groups.items(), key=lambda kv: str(kv[0])):
         v = vs[0]
         try:
@@ -276,7 +277,7 @@ def conclude(pid, tier, seed, b, names, res, t0, cfg):
             if kfe:
                 known_hit.append((kfe[0], entry))
                 continue
-        path = os.path.join(VERIF, 'run', 'violation-%s-%s.json' % (pid, re.sub(r'[^\w.]', '_', cid)))
+        path = os.path.join(rundir, 'violation-%s-%s.json' % (pid, re.sub(r'[^\w.]', '_', cid)))
         with open(path, 'w') as f:
             json.dump(entry, f, indent=1)
         violations.append((cid, path))
@@ -323,8 +324,9 @@ def conclude(pid, tier, seed, b, names, res, t0, cfg):
         'wall_s': round(wall, 2),
         'violations': len(violations),
     }
-    os.makedirs(os.path.join(VERIF, 'evidence'), exist_ok=True)
-    with open(os.path.join(VERIF, 'evidence', pid + '.json'), 'w') as f:
+    evdir = os.environ.get('VERIF_EVIDENCE_DIR') or os.path.join(VERIF, 'evidence')
+    os.makedirs(evdir, exist_ok=True)
+    with open(os.path.join(evdir, pid + '.json'), 'w') as f:
         json.dump(ev, f, indent=1)
     log('property=%s tier=%s harnesses=%d paths=%d queries=%d solver_s=%.1f validated_natively=%d wall=%.0fs' %
         (pid, tier, len(names), n_paths, stats.get('q_branch', 0) + stats.get('q_assert', 0), stats.get('solver_s', 0.0),
